@@ -114,6 +114,21 @@ def job(a):
     return [dict(name="chunk", status="x", strength="aux", backend="csim", secs=time.time() - t0, count=n, nq=nq, length=length, pattern=pattern, fails=fails)]
 
 
+MCTRL_ALPHABET = [("MCtrlZ", (0, 1, 2)), ("MCtrlX", (0, 1, 2)), ("MCtrlZ", (1, 2)), ("MCtrlX", (1, 2)), ("MCtrlZ", (2, 0, 1)), ("X", (2,)), ("CX", (1, 2)), ("CCX", (0, 1, 2)), ("H", (2,))]
+
+
+def job_mctrl(a):
+    """sequences over generic multi-controlled gates (MCtrl of Z / X: same class, same wires, different inner gate) mixed with classical gates"""
+    length, = a
+    n, fails = 0, []
+    for seq in itertools.product(MCTRL_ALPHABET, repeat=length):
+        n += 1
+        f = check(3, list(seq))
+        if f and len(fails) < 50:
+            fails.append(dict(qubits=3, gates=[f"{k}{list(w)}" for k, w in seq], **f))
+    return [dict(name="chunk", status="x", strength="aux", backend="csim", secs=0, count=n, nq=3, length=length, pattern="multi-controlled Z/X mixed with classical gates", fails=fails)]
+
+
 def job_random(a):
     seed, count = a
     r = random.Random(seed)
@@ -155,6 +170,8 @@ def run(tier, only=None):
     n3 = len(REDUCIBLE) ** 3 * 2
     for lo in range(0, n3, 27):
         jobs.append((job_three, (lo, lo + 27)))
+    for L in (2, 3) + ((4,) if tier == "thorough" else ()):
+        jobs.append((job_mctrl, (L,)))
     rs = run_pool(_dispatch, jobs)
     agg = {}
     for r in rs:
